@@ -4,6 +4,7 @@ package dht
 
 import (
 	"fmt"
+	"strings"
 	"testing"
 
 	"github.com/libp2p/go-libp2p/core/peer"
@@ -152,55 +153,8 @@ func c02Run(x *vmc.X, cfg vmc.Cfg) {
 		resCh <- lookupOutcome{ps, err}
 	}()
 	tr := newC01Track(x, l, c.k, key, seeds)
-	// C02 (b): at the terminate event the beta nearest learned peers have answered
-	checkedTerm := false
-	l.onStep = func() bool {
-		if !tr.step() {
-			return false
-		}
-		if tr.termStep >= 0 && !checkedTerm {
-			checkedTerm = true
-			reason := ""
-			for _, e := range l.events {
-				if e.ev.Terminate != nil {
-					reason = e.ev.Terminate.Reason.String()
-				}
-			}
-			if reason != "completed" && reason != "starvation" {
-				x.Failf("C02/termination-reason", "uncancelled lookup terminated with reason %q", reason)
-				return false
-			}
-			var cand []peer.ID
-			for p := range tr.learned {
-				if !tr.failed[p] {
-					cand = append(cand, p)
-				}
-			}
-			cand = sim.SortByDistance(cand, key)
-			unanswered := 0
-			for _, p := range cand {
-				if _, ok := tr.answered[p]; !ok {
-					unanswered++
-				}
-			}
-			nb := c.b
-			if nb > len(cand) {
-				nb = len(cand)
-			}
-			for _, p := range cand[:nb] {
-				if _, ok := tr.answered[p]; !ok && reason == "completed" {
-					x.Failf("C02/terminated-too-early", "lookup completed although %s, one of the beta=%d nearest learned peers %v, has not answered", w.Name(p), c.b, w.Names(cand[:nb]))
-					return false
-				}
-			}
-			if reason == "starvation" && unanswered > 0 {
-				// starvation: nothing heard or waiting, i.e. every learned non-failed peer was asked and answered
-				x.Failf("C02/starvation-with-unasked-peers", "lookup ended by starvation but %d learned peers have not answered", unanswered)
-				return false
-			}
-		}
-		return true
-	}
+	tr.beta = c.b
+	l.onStep = tr.step
 	l.stateKey = tr.stateKey
 	var out *lookupOutcome
 	if !l.runToCompletion("C02", func() bool {
@@ -252,4 +206,55 @@ func c02Run(x *vmc.X, cfg vmc.Cfg) {
 	}
 	x.Obs("result %v", w.Names(out.peers))
 	x.Outcome("%v", w.Names(out.peers))
+}
+
+// ---- part "faults": worlds with failing and slow-dialling peers (no lying peers) --------------------
+
+func c02FaultConfigs(tier string) []vmc.Cfg {
+	var out []vmc.Cfg
+	type kab struct{ k, a, b int }
+	kabs := []kab{{2, 1, 2}, {3, 3, 2}, {3, 1, 2}, {2, 2, 1}}
+	if tier == "thorough" {
+		kabs = append(kabs, kab{4, 1, 2}, kab{4, 3, 2}, kab{3, 2, 3})
+	}
+	faults := []string{sim.BDialFail, sim.BReqFail, sim.BSilent, sim.BSlowDial}
+	ns := []int{4, 5}
+	for _, n := range ns {
+		for _, kb := range kabs {
+			for _, kn := range []string{"chain", "full", "star"} {
+				for i := -1; i < n; i++ {
+					for _, f1 := range faults {
+						for j := i; j < n; j++ {
+							for _, f2 := range faults {
+								if i < 0 && (j > i+1 || f1 != faults[0] || f2 != faults[0]) {
+									continue
+								}
+								as := make([]string, n)
+								for q := range as {
+									as[q] = sim.BHonest
+								}
+								if i >= 0 {
+									as[i] = f1
+									if j > i {
+										as[j] = f2
+									} else if f2 != faults[0] {
+										continue
+									}
+								}
+								for _, sd := range [][]int{{0}, {n - 1}, {0, n - 1}, {1, 2}} {
+									c := c01cfg{n: n, k: kb.k, a: kb.a, b: kb.b, behaviours: as, knowledge: kn, seeds: sd, keyCell: "000", c02: true}
+									out = append(out, vmc.Cfg{Name: fmt.Sprintf("faults/n%d/k%da%db%d/%s/%s/seeds%v", n, kb.k, kb.a, kb.b, kn, strings.Join(as, ","), sd), Data: c})
+								}
+							}
+						}
+					}
+				}
+			}
+		}
+	}
+	return out
+}
+
+func TestVMC_C02faults(t *testing.T) {
+	vmc.Main(t, vmc.Harness{ID: "C02", Configs: c02FaultConfigs, Run: c01Run, Bubble: true})
 }
